@@ -156,7 +156,7 @@ def run(chk) -> None:
         "python": ["assign", "callArg", "returnExpr", "defaultParam", "arrayElem", "mapValue", "binop", "compare",
                    "index", "twoOnLine", "classAttr", "kwArg", "tupleElem", "rangeArg", "enumerateArg", "strRepeat",
                    "upperConst", "annUpperConst", "nestedFunc", "fstringInterp", "lambdaBody", "ternary", "comprehension",
-                   "sliceBound", "unaryMinus", "upperCallArg", "upperFuncBody"],
+                   "sliceBound", "unaryMinus", "upperCallArg", "upperFuncBody", "classUpperConst", "localUpperConst"],
         "typescript": ["assign", "callArg", "returnExpr", "defaultParam", "arrayElem", "mapValue", "binop", "compare",
                        "index", "twoOnLine", "classAttr", "upperConst", "enumMember", "lowerConst", "templateInterp",
                        "arrowBody", "ternary", "upperCallArg", "upperFuncBody"],
@@ -166,7 +166,7 @@ def run(chk) -> None:
     few = {"upperConst", "annUpperConst", "constItem", "staticItem", "enumMember", "enumDiscriminant"}
     one = {"upperCallArg", "upperFuncBody"}
     items = {l: [(s, v) for s in ss for v in range(1, 11) if (v != 8 or l == "rust") and (s not in few or v in (2, 3, 4))
-                 and (s not in one or v == 2)]
+                 and (s not in one or v == 2) and (s not in ("classUpperConst", "localUpperConst") or v in (2, 3, 4, 9))]
              for l, ss in slots.items()}
     for c in cases:   # cross-check the mirror against TLC: every expected item must be in the mirrored universe
         for e in c["expected"]:
